@@ -29,7 +29,7 @@ struct BoxOpts {
 
 // a second, sparse layer at large ring dimensions (a change keyed to a size threshold above the small box is still met)
 inline BoxOpts large_layer(bool thorough, const std::vector<CpuCfg>& cf) {
-  BoxOpts o; o.Ns = thorough ? std::vector<uint64_t>{256, 4096, 65536} : std::vector<uint64_t>{256, 2048};
+  BoxOpts o; o.Ns = thorough ? std::vector<uint64_t>{256, 4096, 65536} : std::vector<uint64_t>{256, 2048, 16384};
   o.max_size = 1; o.extra_sizes = {3}; o.vmp_max_dim = 2; o.vmp_max_size = 2; o.ks = {19}; o.cf = cf; return o;
 }
 
